@@ -287,6 +287,24 @@ def build_traces(path, tier, seed):
             none, b0, b1, bd = brac(a2, dt, thr)
             add({"kind": "brac", "dt": enc(dt), "a": enc_seq(np.asarray(a2, dtype=float)), "thr": enc(thr), "none": bool(none), "t0": enc(b0), "t1": enc(b1), "dur": enc(bd)},
                 {"kind": "brac", "n": n, "shape": shape + " (%s counts with the most negative count)" % np.dtype(dt_).name, "thr": thr, "none": bool(none), "t0": b0, "t1": b1})
+    # records held in single / half precision with a threshold (a python float) that the record's type cannot represent: the
+    # samples that bracket the motion equal the threshold ROUNDED to that type -- whether they exceed it is decided by their
+    # exact values
+    for j in range(10 if tier == "quick" else 60):
+        n = int(rng.integers(12, 200))
+        a, shape = gen.record(rng, n, shape=["noise", "sine", "burst"][j % 3], amp=1.0)
+        ft_ = [np.float32, np.float16][j % 2]
+        a = (np.asarray(a, dtype=float) / (np.max(np.abs(a)) + 1e-300) * 0.4).astype(ft_)
+        thr = float(rng.uniform(0.45, 0.55)) if j % 5 else 0.05 * 9.8
+        j1, j2 = sorted(int(v) for v in rng.choice(n, size=2, replace=False))
+        a[j1] = ft_(thr)
+        a[j2] = -ft_(thr) if j % 3 else ft_(thr)
+        dt = gen.dt(rng)
+        HISTORY["on"] = False
+        none, b0, b1, bd = brac(a, dt, thr)
+        add({"kind": "brac", "dt": enc(dt), "a": enc_seq(np.asarray(a, dtype=float)), "thr": enc(thr), "none": bool(none), "t0": enc(b0), "t1": enc(b1), "dur": enc(bd)},
+            {"kind": "brac", "n": n, "shape": shape + " (%s, bracketing samples = the threshold rounded to the record's type)" % np.dtype(ft_).name, "thr": thr,
+             "none": bool(none), "t0": b0, "t1": b1})
     # a non-monotone user-supplied measure whose oscillation crosses both fractions several times (the in-band samples are then
     # not a single run: the first and the last of them are not the first crossing of one fraction and the last of the other)
     HISTORY["on"] = False
